@@ -26,8 +26,11 @@ type LeveldbDiskStorage struct {
 
 // Create a new table, destroying any existing table.
 func (f LeveldbDiskStorage) Create(tbl *btapb.Table) Rows {
-	f.SetTableMeta(tbl)
 	path := filepath.Join(f.Root, tbl.Name)
+	// Rows left behind by a deleted table of that name must go before the new definition
+	// becomes visible, or a restart in between would serve them under it.
+	_ = os.RemoveAll(path)
+	f.SetTableMeta(tbl)
 	newFunc := func(nuke bool) *leveldb.DB {
 		return newDiskDb(path, nuke)
 	}
@@ -105,6 +108,15 @@ func (f LeveldbDiskStorage) SetTableMeta(tbl *btapb.Table) {
 		return
 	}
 	verifCrashPoint("meta.renamed")
+}
+
+// DeleteTable forgets the table: without its definition file it is not returned by
+// GetTables any more. Its rows are removed when a table of that name is created again.
+func (f LeveldbDiskStorage) DeleteTable(tbl *btapb.Table) {
+	outPath := filepath.Join(f.Root, tbl.Name) + ".table.proto"
+	if err := os.Remove(outPath); err != nil && !os.IsNotExist(err) {
+		f.errLog(err, "os.Remove %q", outPath)
+	}
 }
 
 func (f LeveldbDiskStorage) errLog(err error, format string, args ...interface{}) {
